@@ -45,7 +45,12 @@ class C06(F.PropCheck):
         tags = []
         boot = C7.aged_boot(rng) if rng.random() < 0.06 else 1
         if boot != 1: tags.append('aged')
-        evs = [C7.cfg_event(boot, 1, rng.choice([0, 0, 1]), False, rel, t2, [], [ninp] + inputs), ('REG', [], b'')]
+        evs = [C7.cfg_event(boot, 1, rng.choice([0, 0, 1]), False, rel, t2, [], [ninp] + inputs)]
+        if rng.random() < 0.1:          # local events before the device is registered: outputs follow, nothing is reported
+            tags.append('pre-reg')
+            for _ in range(rng.randrange(1, 4)):
+                evs.append(('BTN', [rng.randrange(ninp), rng.choice([0, 1])], b'') if ninp and rng.random() < 0.7 else ('TICK', [rng.choice([1000, 500000])], b''))
+        evs.append(('REG', [], b''))
         room = rng.choice([0, 1, 2, 3, 3, 3])      # iterates after each event: 3 always leaves room
         tags.append('room%d' % room)
         pend = {}
@@ -202,6 +207,8 @@ class C06(F.PropCheck):
         OP8 = 8 * C7.relay_op_us()
         time2 = list(cfg['time2']); timed = {}       # relay index -> (t_cmd, d_ms): "on for d" accepted and not cancelled since
         quiet = set()                                 # relays whose timer a config message cancelled (staircase -> plain switch): no timer until the next command
+        sensor_want = {}                              # sensor channel -> value of its last event while registered
+        link = [0, 0]                                 # refusals scripted by the last SENTRES, iterates since
         pendq = []                                    # requests received and not handled yet: one frame is handled per iterate, oldest first
         inputs = []; rest = cfg['rest']
         for j in range(rest[0] if rest else 0): inputs.append(tuple(rest[1 + 5 * j: 6 + 5 * j]))
@@ -210,6 +217,18 @@ class C06(F.PropCheck):
         for k, seg in enumerate(segs[1:]):
             if k >= len(evs): break
             e = evs[k]; drops = [o for o in seg if o[0] == 'DROP']
+            btn_want = None          # (relay index, level the statement asks for after this button / motion event)
+            if e[0] == 'BTN' and 0 <= e[1][0] < len(inputs):
+                ig, ity, ifl, irel, ich = inputs[e[1][0]]; act = e[1][1] != 0
+                if irel in pinidx and irel != 255:
+                    i_ = pinidx[irel]; ch_ = rel[i_][1]; old_ = level(i_)
+                    stair_rst = ch_ < c['T2_COUNT'] and time2[ch_] > 0 and cfg['sbt'] == c['SBT_RESET']
+                    toggle = 1 if stair_rst else 1 - old_
+                    if ity == c['IN_MONO']: btn_want = (i_, toggle if act == bool(ifl & c['IN_FLAG_ON_PRESS']) else old_)
+                    elif ity == c['IN_BI']: btn_want = (i_, toggle)
+                    elif ity == c['IN_MOTION']: btn_want = (i_, 1 if act else 0)
+                elif ity == c['IN_SENSOR'] and ich != 255 and registered:
+                    sensor_want[ich] = 1 if act else 0
             clicked = None           # relay of a toggle-type button on a staircase channel with the reset-type button rule
             if e[0] == 'BTN' and 0 <= e[1][0] < len(inputs):
                 ig, ity, ifl, irel, ich = inputs[e[1][0]]
@@ -232,7 +251,12 @@ class C06(F.PropCheck):
                     if registered: changed.add(rel[pinidx[o[1][1]]][1])
                 elif o[0] == 'VAL': reported[o[1][1]] = o[1][2]
                 elif o[0] == 'RES': got_res.append(tuple(o[1][1:4]))
-            if e[0] == 'REG': registered = True; changed = set(); reported = {}
+            if btn_want is not None and level(btn_want[0]) != btn_want[1]:
+                v.append('BUTTON after the %s of input %d relay gpio %d is at logical level %d, the button / motion-sensor rule asks for %d' %
+                         ('press' if e[1][1] else 'release', e[1][0], rel[btn_want[0]][0], level(btn_want[0]), btn_want[1]))
+            if e[0] == 'SENTRES': link = [len(e[1]), 0]
+            elif e[0] == 'ITER': link[1] += 1
+            if e[0] == 'REG': registered = True; changed = set(); reported = {}; sensor_want = {}
             if e[0] == 'TIME2' and 0 <= e[1][0] < 8: time2[e[1][0]] = e[1][1]
             if e[0] == 'CHCFG':
                 cc = C7.chcfg_time(e[1])
@@ -280,9 +304,20 @@ class C06(F.PropCheck):
                     expect_res.append((k, ch, sender & 0xFFFFFFFF if sender < 0 else sender, 0, 'QUEUE-FULL' if drops else None))
             elif drops:
                 for r in rel: blame.setdefault(r[1], 'QUEUE-FULL')
+            if drops:
+                for ch_ in sensor_want: blame.setdefault(ch_, 'QUEUE-FULL')
             q = seg[-1][1]; qprev = (q[1], q[2] + (q[3] if len(q) > 3 else 0)); tprev = q[0]      # bytes: proto buffer + devconn's send buffer
+            if len(q) > 3 and q[3] > 0 and link[1] >= link[0] + 1:
+                v.append('STUCK %d bytes are still waiting in the send buffer after %d iterates although the link refused only %d writes' % (q[3], link[1], link[0]))
+                link = [0, -10**9]
             if registered and qprev == (0, 0):
                 # idle: every reported change equals the real state, every request so far has its one result
+                for ch_ in sorted(sensor_want):
+                    if reported.get(ch_) != sensor_want[ch_]:
+                        v.append('%s idle after event %d (%s): the last value reported for sensor channel %d is %s but its input is at %d' %
+                                 (blame.get(ch_, 'STALE'), k, e[0], ch_, reported.get(ch_), sensor_want[ch_]))
+                        sensor_want[ch_] = reported.get(ch_) if reported.get(ch_) is not None else sensor_want[ch_]
+                        if reported.get(ch_) is None: sensor_want.pop(ch_, None)
                 for ch in sorted(changed):
                     i = chidx[ch]
                     if reported.get(ch) != level(i):
